@@ -2198,14 +2198,14 @@ func specFirstQerID(p pdr) uint32 {
 
 // specPdrAdded: command e installs PDR p under port rule r.
 func specPdrAdded(e int, p pdr, r portRangeTernaryCartesianProduct) bool {
-	return specBessCmd(e, "pdrLookup", "add") && specPdrKey(specPdrAddArg(e).Values, specPdrAddArg(e).Masks, p, r) &&
+	return specBessCmd(e, "pdrLookup", "add") && live(specPdrAddArg(e)) && specPdrKey(specPdrAddArg(e).Values, specPdrAddArg(e).Masks, p, r) &&
 		specPdrAddArg(e).Gate == uint64(p.needDecap) && specPdrAddArg(e).Priority == int64(4294967295-p.precedence) &&
 		specInts(specPdrAddArg(e).Valuesv, 5) && specFD(specPdrAddArg(e).Valuesv[0]) == uint64(p.pdrID) && specFD(specPdrAddArg(e).Valuesv[1]) == p.fseID &&
 		specFD(specPdrAddArg(e).Valuesv[2]) == uint64(p.ctrID) && specFD(specPdrAddArg(e).Valuesv[3]) == uint64(specFirstQerID(p)) && specFD(specPdrAddArg(e).Valuesv[4]) == uint64(p.farID)
 }
 
 func specPdrDeleted(e int, p pdr, r portRangeTernaryCartesianProduct) bool {
-	return specBessCmd(e, "pdrLookup", "delete") && specPdrKey(specPdrDelArg(e).Values, specPdrDelArg(e).Masks, p, r)
+	return specBessCmd(e, "pdrLookup", "delete") && live(specPdrDelArg(e)) && specPdrKey(specPdrDelArg(e).Values, specPdrDelArg(e).Masks, p, r)
 }
 
 //@ func (b *bess) addPDR#1() free(b *bess, p pdr)
